@@ -91,17 +91,17 @@ package breaker
 //@   property C01
 //@   requires brkOK(b)
 //@   ensures  brkOK(b) && rwAdded[b.stat] == upd(old(rwAdded[b.stat]), 2, old(added(b, 2)) + 1)
-//@   modifies rwAdded[b.stat], bucket.Sum, bucket.Success, bucket.Failure, bucket.Drop, collection.RollingWindow.offset, collection.RollingWindow.lastTime
+//@   modifies rwAdded[b.stat], rwE[b.stat], rwBagAt[b.stat], bkBag, bucket.Sum, bucket.Success, bucket.Failure, bucket.Drop, collection.RollingWindow.offset, collection.RollingWindow.lastTime
 //@ func (b *googleBreaker) markFailure
 //@   property C01
 //@   requires brkOK(b)
 //@   ensures  brkOK(b) && rwAdded[b.stat] == upd(old(rwAdded[b.stat]), 1, old(added(b, 1)) + 1)
-//@   modifies rwAdded[b.stat], bucket.Sum, bucket.Success, bucket.Failure, bucket.Drop, collection.RollingWindow.offset, collection.RollingWindow.lastTime
+//@   modifies rwAdded[b.stat], rwE[b.stat], rwBagAt[b.stat], bkBag, bucket.Sum, bucket.Success, bucket.Failure, bucket.Drop, collection.RollingWindow.offset, collection.RollingWindow.lastTime
 //@ func (b *googleBreaker) markSuccess
 //@   property C01
 //@   requires brkOK(b)
 //@   ensures  brkOK(b) && rwAdded[b.stat] == upd(old(rwAdded[b.stat]), 0, old(added(b, 0)) + 1)
-//@   modifies rwAdded[b.stat], bucket.Sum, bucket.Success, bucket.Failure, bucket.Drop, collection.RollingWindow.offset, collection.RollingWindow.lastTime
+//@   modifies rwAdded[b.stat], rwE[b.stat], rwBagAt[b.stat], bkBag, bucket.Sum, bucket.Success, bucket.Failure, bucket.Drop, collection.RollingWindow.offset, collection.RollingWindow.lastTime
 
 //@ func (b *googleBreaker) doReq
 //@   property C01
